@@ -302,10 +302,12 @@ class AsyncPolicy:
         on_end: AttemptHook | None,
     ) -> RetryOutcome[T]:
         """Execute single async attempt without retry."""
+        attempts = 0
         try:
             if on_start is not None:
                 on_start(make_attempt_context(1, ctx.operation, ctx.elapsed()))
 
+            attempts = 1
             result = await func()
 
         except AbortRetryError as exc:
@@ -321,7 +323,7 @@ class AsyncPolicy:
                         stop_reason=StopReason.ABORTED,
                     )
                 )
-            return build_aborted_outcome(ctx)
+            return build_aborted_outcome(ctx, attempts)
 
         except asyncio.CancelledError:
             record_cancel(ctx)
